@@ -8,8 +8,10 @@
      path    with the concrete range semantics sem_formula (FRange cols) the
              element (i, j) of a range node's value is the value evaluate
              returns for the member cell at that position.
-   Unbounded ranges (clipping to the used area), address lists and sheet-less
-   addresses are not in the model: oracle only (harness/props/c05.py). *)
+   Address lists, permutations, whole-state idempotence and the reference node
+   of an unbounded range: Proofs/C05List.v.  The clipping of an unbounded range
+   to the used area and sheet-less addresses are not in the model: oracle only
+   (harness/props/c05.py). *)
 From Coq Require Import List Arith Bool Lia.
 From PV Require Import Lib.Py Model.Graph Model.GraphExpr.
 From PV Require Import Proofs.C01Base Proofs.C01Eval Proofs.C01Inv Proofs.C01.
